@@ -9,7 +9,21 @@ PROP = {
   "saml2_tophat.sigver:SecurityContext.correctly_signed_response",
   "saml2_tophat.sigver:SecurityContext.correctly_signed_message[assertion]",
   "saml2_tophat.response:StatusResponse._loads",
-  "saml2_tophat.response:AuthnResponse.loads"
+  "saml2_tophat.response:AuthnResponse.loads",
+  "saml2_tophat.response:AuthnResponse._assertion",
+  "saml2_tophat.response:AuthnResponse.decrypt_assertions",
+  "saml2_tophat.sigver:SecurityContext.correctly_signed_message[artifact_response]",
+  "saml2_tophat.sigver:SecurityContext.correctly_signed_message[assertion_id_request]",
+  "saml2_tophat.sigver:SecurityContext.correctly_signed_message[attribute_query]",
+  "saml2_tophat.sigver:SecurityContext.correctly_signed_message[authn_query]",
+  "saml2_tophat.sigver:SecurityContext.correctly_signed_message[authn_request]",
+  "saml2_tophat.sigver:SecurityContext.correctly_signed_message[authz_decision_query]",
+  "saml2_tophat.sigver:SecurityContext.correctly_signed_message[logout_request]",
+  "saml2_tophat.sigver:SecurityContext.correctly_signed_message[logout_response]",
+  "saml2_tophat.sigver:SecurityContext.correctly_signed_message[manage_name_id_request]",
+  "saml2_tophat.sigver:SecurityContext.correctly_signed_message[manage_name_id_response]",
+  "saml2_tophat.sigver:SecurityContext.correctly_signed_message[name_id_mapping_request]",
+  "saml2_tophat.sigver:SecurityContext.correctly_signed_message[name_id_mapping_response]"
  ],
  "level": "other",
  "explanation": "Contract-level part of C01: at every acceptance site a relied-upon element's signature is verified by the tool for that element's own ID (XS_OK over --node-id) under an issuer key; the tool's argv is pinned by the E-XMLSEC axiom. The structural own-signature atom A4 (single Reference naming the element's ID) is a named obligation that fails on this tree (known finding); atoms A2/A3/A5/A6 are document-level facts no Python code establishes and are not decided.",
